@@ -573,6 +573,137 @@ def toptree_levels(facts, fn, sr, call, op, slots, res, R="C02.2.level-role"):
     res.instance(R, "%s %s@%d" % (fn["qname"], op, call["l"][1]), facts.loc(call), " ".join(det))
 
 
+LOOKUPS = ("getElementFromSpacialIndex", "getElementFromParentIndex")
+
+
+def position_provenance(facts, res, R="C02.5.position-provenance", cls="TbfGroupKernelInterface"):
+    """A position inside a group that the wrapper obtains by looking an index up (`auto f = G.getElementFrom...Index(i); ... H.getCell...(*f)`)
+    is a position in G: it may only be handed to accessors of that same group.  When the lookup goes through a helper of the wrapper the
+    helper is followed: every value it returns is either the lookup of ITS group parameter, or a position computed from the index
+    (`i - G.getStartingSpacialIndex()`) under a flag - and then the flag at the call site must be the hole-free test of the very group
+    that is looked up (first / last index and count of the same group), otherwise a group with holes is addressed as if it had none."""
+    methods = [m for m in facts.methods_of(cls) if tbf.body(m) is not None and not m.get("inst")]
+    byname = {}
+    for m in methods:
+        byname.setdefault(m["name"], []).append(m)
+    n = 0
+    for m in methods:
+        body = tbf.body(m)
+        decls = {v["did"]: v for v in walk(body) if v.get("k") == "VarDecl"}
+        pdids = {p_["did"]: p_ for p_ in m["params"]}
+
+        def group_of(e):
+            e = strip(e)
+            while e is not None and e.get("k") in ("CallExpr", "CXXMemberCallExpr") and tbf.callee_name(e) in ("make_const", "as_const") and tbf.call_args(e):
+                e = strip(tbf.call_args(e)[0])
+            return e.get("did") if e is not None and e.get("k") == "DeclRefExpr" and e.get("did") in pdids else None
+
+        def source_group(init, where):
+            """the group a looked-up position belongs to; (did, note) - None when the initialiser is not a lookup"""
+            init = strip(init)
+            if init.get("k") not in ("CallExpr", "CXXMemberCallExpr"):
+                return None
+            nm = tbf.callee_name(init)
+            if nm in LOOKUPS and tbf.call_base(init) is not None:
+                return (group_of(tbf.call_base(init)), "%s of `%s`" % (nm, facts.ntext(tbf.call_base(init))))
+            if nm in byname and (tbf.call_base(init) is None or strip(tbf.call_base(init)).get("k") == "CXXThisExpr"):
+                hs = [h for h in byname[nm] if len(h["params"]) == len(tbf.call_args(init))]
+                if len(hs) != 1:
+                    return None
+                h = hs[0]
+                if not any(c_.get("k") in ("CallExpr", "CXXMemberCallExpr") and tbf.callee_name(c_) in LOOKUPS for c_ in walk(tbf.body(h))):
+                    return None     # not a lookup helper (e.g. the hole-free test itself)
+                args = tbf.call_args(init)
+                bound = {p_["did"]: a for p_, a in zip(h["params"], args)}
+                grp = None
+                found_any = False
+                for r in walk(tbf.body(h)):
+                    if r.get("k") != "ReturnStmt" or not kids(r):
+                        continue
+                    e = strip(kids(r)[0])
+                    lk = [c_ for c_ in walk(e) if c_.get("k") in ("CallExpr", "CXXMemberCallExpr") and tbf.callee_name(c_) in LOOKUPS and tbf.call_base(c_) is not None]
+                    if lk:
+                        found_any = True
+                        b_ = strip(tbf.call_base(lk[0]))
+                        g_ = group_of(bound[b_["did"]]) if b_.get("k") == "DeclRefExpr" and b_.get("did") in bound else None
+                        if g_ is None:
+                            raise AnalysisBroken("%s: the helper %s looks an index up in something that is not one of its group parameters" % (facts.loc(r), nm))
+                        grp = g_ if grp in (None, g_) else -1
+                        continue
+                    st = [c_ for c_ in walk(e) if c_.get("k") in ("CallExpr", "CXXMemberCallExpr") and tbf.callee_name(c_) == "getStartingSpacialIndex" and tbf.call_base(c_) is not None]
+                    if not st:
+                        if not found_any:
+                            return None     # not a lookup helper at all
+                        raise AnalysisBroken("%s: a value returned by the helper %s is neither a lookup nor a position computed from the group's first index" % (facts.loc(r), nm))
+                    found_any = True
+                    b_ = strip(tbf.call_base(st[0]))
+                    g_ = group_of(bound[b_["did"]]) if b_.get("k") == "DeclRefExpr" and b_.get("did") in bound else None
+                    grp = g_ if grp in (None, g_) else -1
+                    # the computed position needs a flag: the nearest enclosing `if(flag)` on a parameter
+                    tbf.link_parents(tbf.body(h))
+                    conds = [a_ for a_ in tbf.ancestors(r) if a_.get("k") == "IfStmt"]
+                    flag = None
+                    for c_ in conds:
+                        c0 = strip([y for y in kids(c_) if y.get("k") != "DeclStmt"][0])
+                        if c0.get("k") == "DeclRefExpr" and c0.get("did") in bound:
+                            flag = bound[c0["did"]]
+                    if flag is None:
+                        res.violation(R, tbf.rel(facts.path_of(r)), h["qname"], "unguarded-direct@%d" % r["l"][1], r["l"][1],
+                                      "the helper %s returns a position computed from the index without any test that the group has no hole" % nm)
+                        continue
+                    # the flag at the call site: a hole-free test, and of which group?
+                    f0 = strip(flag)
+                    if f0.get("k") == "DeclRefExpr" and f0.get("did") in decls and kids(decls[f0["did"]]):
+                        f0 = strip(kids(decls[f0["did"]])[0])
+                    tested = None
+                    if f0.get("k") in ("CallExpr", "CXXMemberCallExpr") and tbf.callee_name(f0) in byname and len(tbf.call_args(f0)) == 1:
+                        th = byname[tbf.callee_name(f0)][0]
+                        tt = facts.ntext(tbf.body(th))
+                        if all(k_ in tt for k_ in ("getEndingSpacialIndex", "getStartingSpacialIndex", "getNbCells")) or all(k_ in tt for k_ in ("getEndingSpacialIndex", "getStartingSpacialIndex", "getNbLeaves")):
+                            tested = group_of(tbf.call_args(f0)[0])
+                    if tested is None:
+                        raise AnalysisBroken("%s: the flag `%s` handed to %s is not recognised as the hole-free test of a group parameter" % (facts.loc(where), facts.ntext(flag)[:50], nm))
+                    if g_ is not None and tested != g_:
+                        res.violation(R, tbf.rel(facts.path_of(where)), m["qname"], "foreign-hole-test@%d" % where["l"][1], where["l"][1],
+                                      "`%s`: the position of the index in `%s` is computed as index - first index because `%s` has no hole - the test was made on another group; a source group with holes is then read at the position of another cell (or past its end), and indices it does not hold are no longer skipped"
+                                      % (facts.ntext(init)[:70], pdids[g_]["name"], pdids[tested]["name"] if tested in pdids else facts.ntext(flag)[:30]))
+                if not found_any:
+                    return None
+                if grp == -1:
+                    raise AnalysisBroken("%s: the helper %s returns positions of different groups" % (facts.loc(where), nm))
+                return (grp, "%s(...) on `%s`" % (nm, pdids[grp]["name"] if grp in pdids else "?"))
+            return None
+        # positions: locals initialised by a lookup
+        owner = {}
+        for did, v in decls.items():
+            if kids(v):
+                sg = source_group(kids(v)[0], v)
+                if sg is not None and sg[0] is not None:
+                    owner[did] = sg
+        for x in walk(body):
+            if x.get("k") not in ("CallExpr", "CXXMemberCallExpr") or tbf.call_base(x) is None:
+                continue
+            nm = tbf.callee_name(x) or ""
+            if not re.match(r"^get(Cell|Leaf|Particle|NbParticlesInLeaf)", nm) or len(tbf.call_args(x)) != 1:
+                continue
+            g = group_of(tbf.call_base(x))
+            if g is None:
+                continue
+            a = strip(tbf.call_args(x)[0])
+            while a.get("k") in ("UnaryOperator", "CXXOperatorCallExpr") and a.get("op") == "*" and kids(a):
+                a = strip(kids(a)[-1])
+            if a.get("k") in ("CallExpr", "CXXMemberCallExpr") and tbf.callee_name(a) == "value" and tbf.call_base(a) is not None:
+                a = strip(tbf.call_base(a))
+            if a.get("k") == "DeclRefExpr" and a.get("did") in owner:
+                n += 1
+                og, note = owner[a["did"]]
+                if og != g:
+                    res.violation(R, tbf.rel(facts.path_of(x)), m["qname"], "foreign-position@%d" % x["l"][1], x["l"][1],
+                                  "`%s` reads group `%s` at a position that was looked up in another group (%s)" % (facts.ntext(x)[:60], pdids[g]["name"], note))
+    res.instance(R, cls, "src/algorithms/sequential/tbfgroupkernelinterface.hpp", "%d accessor calls at looked-up positions, each on the group the position was looked up in" % n)
+    return n
+
+
 def run(res, tier):
     facts = tbf.scan("core")
     res.units.append("umbrella TU 'core': TbfGroupKernelInterface (12 kernel call sites), periodic top trees (2 x 6 sites), 4 executors")
@@ -596,6 +727,8 @@ def run(res, tier):
             toptree_levels(facts, fn, sr, call, op, slots, res)
     res.floor("C02.1.toptree", ntop, 12, "top-tree kernel call sites")
     res.assumptions.append("non-emptiness of the periodic top-tree calls depends on the tree holding at least one particle (run-time fact); it is decided for the 12 wrapper sites only")
+    res.rule("C02.5 position provenance: a position the wrapper looked up in a group is handed to accessors of that group only; a helper that computes the position from the index (hole-free shortcut) is followed, and its flag must be the hole-free test of the group that is looked up")
+    res.floor("C02.5", position_provenance(facts, res), 10, "accessor calls at looked-up positions")
     wroles = wrapper_param_roles(facts, cmap)
     n = 0
     res.rule("C02.4 the interaction records an operator call is built from are those of this execution's tree: stage functions keep nothing about the tree in the executor (a list remembered across execute() calls pairs a position in a group with a position code computed for another cell once the tree is rebuilt)")
